@@ -267,7 +267,9 @@ def parent_main(a):
     # determinism witness: fresh interpreter, other hash seed, reversed order, alone
     outp = os.path.join(tmpd, "det.json")
     cmd = base + ["--wid", "0", "--lo", "0", "--hi", str(detn), "--out", outp, "--det"]
-    procs.append(("det", subprocess.Popen(cmd, env=dict(env, PYTHONHASHSEED="4242"), cwd=VERIF, stdout=subprocess.PIPE, stderr=subprocess.STDOUT), outp))
+    # (same PYTHONHASHSEED as the workers: the code under test itself depends on it -- DP17 pickles a set of identifiers -- so
+    # the hash seed is part of the pinned environment, not something a run may vary)
+    procs.append(("det", subprocess.Popen(cmd, env=env, cwd=VERIF, stdout=subprocess.PIPE, stderr=subprocess.STDOUT), outp))
 
     hard = budget * 3 + 300
     results = {}
